@@ -87,20 +87,45 @@ TakeT(t, pos) == IF \E k \in 1..Len(pos) : pos[k] >= NR(t) \/ pos[k] < -NR(t) TH
 ProjectT(t, cs) == IF \E k \in 1..Len(cs) : ~HasCol(t, cs[k]) THEN Err("KeyError")
                    ELSE Ok(Tbl(cs, [i \in 1..Len(t.rows) |-> [cc \in Range(cs) |-> t.rows[i][cc]]]))
 \* functions of the menus (the driver holds the matching Python lambdas)
+IntPair(u, v) == Tag(u) = "i" /\ Tag(v) = "i"
 FnApply(f, row) == CASE f = "copy_a"   -> row.a                                        \* lambda a: a
                      [] f = "a_or_2"   -> IF IsNone(row.a) THEN V2 ELSE row.a            \* lambda a: 2 if a is None else a
                      [] f = "const_x"  -> VX                                             \* lambda: 'x'
                      [] f = "copy_key" -> row.key                                        \* lambda key: key   (a column that is called 'key')
-FnNeeds(f) == IF f = "const_x" THEN {} ELSE IF f = "copy_key" THEN {"key"} ELSE {"a"}
+                     [] f = "copy_c"   -> row.c                                          \* lambda c: c
+                     [] f = "a_plus_b" -> IF IntPair(row.a, row.b) THEN VInt((Pay(row.a) + Pay(row.b)) % 100) ELSE None   \* a function of two columns
+FnNeeds(f) == CASE f = "const_x" -> {} [] f = "copy_key" -> {"key"} [] f = "copy_c" -> {"c"} [] f = "a_plus_b" -> {"a", "b"} [] OTHER -> {"a"}
 \* d(c = f): a new table with the derived column
 DeriveT(t, c, f) == IF NR(t) > 0 /\ ~(FnNeeds(f) \subseteq ColSet(t)) THEN Err("TypeError")
                     ELSE IF t.cols = <<>> THEN Ok(Tbl(<<c>>, <<>>))
                     ELSE Ok(Tbl(IF HasCol(t, c) THEN t.cols ELSE Append(t.cols, c),
                                 [i \in 1..NR(t) |-> [cc \in ColSet(t) \cup {c} |-> IF cc = c THEN FnApply(f, t.rows[i]) ELSE t.rows[i][cc]]]))
-\* d.do(lambda v: 0 if v is None else v, *cols)
-DoT(t, cs) == IF \E k \in 1..Len(cs) : ~HasCol(t, cs[k]) THEN Err("KeyError")
-              ELSE LET on == IF cs = <<>> THEN ColSet(t) ELSE Range(cs) IN
-                   Ok(Tbl(t.cols, [i \in 1..Len(t.rows) |-> [cc \in ColSet(t) |-> IF cc \in on /\ IsNone(t.rows[i][cc]) THEN VInt(0) ELSE t.rows[i][cc]]]))
+\* d(c = f, c2 = g) where c is a column the table does not have yet and g reads c: whatever the order of the keywords, the only
+\* reading on records is "c first, then c2 from the record that has c" (with c already there, old-or-new c would be open: left out)
+DerivePairT(t, c, f, c2, g) == LET r1 == DeriveT(t, c, f) IN IF r1.ok THEN DeriveT(r1.t, c2, g) ELSE r1
+
+\* per-column transforms d.do(f, *cols) / d.do([f, g, ...], *cols).  The first parameter of a function is the cell that is
+\* transformed, every further parameter NAMES A COLUMN and receives that field of the same record.  On a list of records the call is
+\* record by record: for each column in the order given, for each function in the order given, rec[col] = f(rec[col], rec[extras]);
+\* a record has one state only, so an extra parameter naming a column transformed earlier in the call sees the NEW value.
+DoFnExtras(f) == CASE f = "add_a" -> {"a"} [] f = "or_b" -> {"b"} [] OTHER -> {}
+DoFnApply(f, v, rec) == CASE f = "none0" -> IF IsNone(v) THEN VInt(0) ELSE v                                  \* lambda value: 0 if value is None else value
+                          [] f = "add_a" -> IF IntPair(v, rec.a) THEN VInt((Pay(v) + Pay(rec.a)) % 100) ELSE v   \* lambda value, a: (value + a) % 100 if both are ints else value
+                          [] f = "or_b"  -> IF IsNone(v) THEN rec.b ELSE v                                      \* lambda value, b: b if value is None else value
+DoPlan(keys, fs) == [k \in 1..(Len(keys) * Len(fs)) |-> <<keys[((k - 1) \div Len(fs)) + 1], fs[((k - 1) % Len(fs)) + 1]>>]
+RECURSIVE DoOnRec(_, _, _)
+DoOnRec(rec, steps, k) == IF k > Len(steps) THEN rec
+                        ELSE DoOnRec([rec EXCEPT ![steps[k][1]] = DoFnApply(steps[k][2], rec[steps[k][1]], rec)], steps, k + 1)
+DoCellOnly(fs) == \A j \in 1..Len(fs) : DoFnExtras(fs[j]) = {}
+\* cs = <<>>: no columns named = all columns (the session machine uses that form only with functions of the cell alone, the
+\* order of "all columns" is not part of the model)
+DoT(t, fs, cs) == LET keys == IF cs = <<>> THEN t.cols ELSE cs IN
+                  IF \E k \in 1..Len(cs) : ~HasCol(t, cs[k]) THEN Err("KeyError")
+                  ELSE IF NR(t) > 0 /\ keys # <<>> /\ \E j \in 1..Len(fs) : ~(DoFnExtras(fs[j]) \subseteq ColSet(t)) THEN Err("TypeError")
+                  ELSE Ok(Tbl(t.cols, [i \in 1..Len(t.rows) |-> DoOnRec(t.rows[i], DoPlan(keys, fs), 1)]))
+\* d - c, d - [c, ...]: a new table without these columns; names the table does not have are ignored
+MinusColsT(t, cs) == LET keep == SelectSeq(t.cols, LAMBDA x : x \notin Range(cs)) IN
+               Ok(Tbl(keep, IF keep = <<>> THEN <<>> ELSE [i \in 1..Len(t.rows) |-> [cc \in Range(keep) |-> t.rows[i][cc]]]))
 \* d.relabel(c = c2) onto a fresh name
 RenameT(t, c, c2) == IF ~HasCol(t, c) THEN Ok(t)
                      ELSE Ok(Tbl([k \in 1..Len(t.cols) |-> IF t.cols[k] = c THEN c2 ELSE t.cols[k]],
